@@ -188,7 +188,7 @@ func (se *symEval) eval1(v ssa.Value) *sx {
 	case *ssa.Call:
 		// inline module helpers returning a single scalar (e.g. a flag-computing helper)
 		if g := flow.StaticCallee(x); g != nil && se.depth > 0 && g.Blocks != nil && se.c.P.InModule(pkgOf(g)) && g.Signature.Results().Len() == 1 {
-			if _, isBasic := g.Signature.Results().At(0).Type().Underlying().(*types.Basic); isBasic && g.Signature.Recv() == nil {
+			if _, isBasic := g.Signature.Results().At(0).Type().Underlying().(*types.Basic); isBasic {
 				inner := se.c.newSymEval(g, se.depth-1)
 				var alts []*sx
 				for _, rv := range flow.ReturnValues(g, 0) {
@@ -474,6 +474,21 @@ func (se *symEval) valueOrNested(v ssa.Value, depth int, sum objSummary, path st
 				}
 			}
 			return &sx{Op: "fresh", Leaf: path}
+		}
+	}
+	// … or the result of a constructor of the module that returns a fresh struct (newHeader(...))
+	if call, ok := flow.Peel(v).(*ssa.Call); ok && depth > 0 {
+		if pt, isPtr := call.Type().Underlying().(*types.Pointer); isPtr {
+			if _, isStruct := pt.Elem().Underlying().(*types.Struct); isStruct {
+				if g := flow.StaticCallee(call); g != nil && g.Blocks != nil && se.c.P.InModule(pkgOf(g)) {
+					if nested, ok := se.objectState(call, nil, depth); ok && len(nested) > 0 {
+						for k, e := range nested {
+							sum[path+"."+k] = e
+						}
+						return &sx{Op: "fresh", Leaf: path}
+					}
+				}
+			}
 		}
 	}
 	return se.eval(v)
